@@ -533,14 +533,7 @@ func NewRequest(req *http.Request, withBody bool) (*Request, error) {
 		Cookies:     cookies(req.Cookies()),
 	}
 
-	for n, vs := range req.URL.Query() {
-		for _, v := range vs {
-			r.QueryString = append(r.QueryString, QueryString{
-				Name:  n,
-				Value: v,
-			})
-		}
-	}
+	r.QueryString = append(r.QueryString, queryParams(req.URL.RawQuery)...)
 
 	pd, err := postData(req, withBody)
 	if err != nil {
@@ -634,6 +627,31 @@ func NewResponse(res *http.Response, withBody bool) (*Response, error) {
 		r.Content.Size = int64(len(body))
 	}
 	return r, nil
+}
+
+// queryParams returns the parameters of a query in the order they appear. Only
+// "&" separates parameters: url.Values drops every pair that contains a ";",
+// which is a legal character of a query (as in "accept=text/html;q=0.9"). A
+// name or value that cannot be unescaped is listed as it is.
+func queryParams(rawQuery string) []QueryString {
+	qs := []QueryString{}
+	for _, pair := range strings.Split(rawQuery, "&") {
+		if pair == "" {
+			continue
+		}
+		name, value := pair, ""
+		if i := strings.Index(pair, "="); i >= 0 {
+			name, value = pair[:i], pair[i+1:]
+		}
+		if n, err := url.QueryUnescape(name); err == nil {
+			name = n
+		}
+		if v, err := url.QueryUnescape(value); err == nil {
+			value = v
+		}
+		qs = append(qs, QueryString{Name: name, Value: value})
+	}
+	return qs
 }
 
 func multipartParams(body []byte, boundary string) ([]Param, error) {
